@@ -922,6 +922,10 @@ func uniqueStore(a *ssa.Alloc) *ssa.Store {
 	n := 0
 	for _, r := range *a.Referrers() {
 		if s, ok := r.(*ssa.Store); ok && s.Addr == a {
+			// `x = x` (a named result returned as itself through an expanded helper) stores what is there already
+			if ld, isLoad := s.Val.(*ssa.UnOp); isLoad && ld.Op == token.MUL && ld.X == ssa.Value(a) && ld.Block() == s.Block() {
+				continue
+			}
 			st = s
 			n++
 		}
@@ -1220,6 +1224,24 @@ func knownNonNil(v ssa.Value, depth int) bool {
 			return true
 		}
 		if g := staticCallee(&x.Call); g != nil && g.Blocks != nil && g.Signature.Results().Len() == 1 {
+			// every return of the callee returns something that is never nil (a struct or number converted to error, a
+			// fresh error): `fr.connError(code, reason)` returning ConnectionError(code)
+			if depth < 3 && g.Recover == nil {
+				all, n := true, 0
+				for _, b := range g.Blocks {
+					for _, i := range b.Instrs {
+						if ret, ok := i.(*ssa.Return); ok {
+							n++
+							if len(ret.Results) != 1 || !knownNonNil(ret.Results[0], depth+2) {
+								all = false
+							}
+						}
+					}
+				}
+				if all && n > 0 {
+					return true
+				}
+			}
 			if k, ok := identityReturn(g); ok {
 				args := x.Call.Args
 				if k < len(args) {
